@@ -568,6 +568,9 @@ func (r *seqRun) oracle(o *opT, out outcome, table []p9p.VerifFid) {
 			noCalls("walk onto a bound fid")
 		default:
 			cs := w.callsNamed("walk")
+			if (b.h.dir || len(o.names) == 0) && !(len(o.names) == 0 && o.fid2 == o.fid) {
+				must(len(cs) == 1, "walk-calls", fmt.Sprintf("a walk of the safe names %q from a bound directory fid onto a free fid made %d Dirent.Walk calls (result %v)", o.names, len(cs), out.err))
+			}
 			complete := len(cs) == 1 && cs[0].ok && len(w.handed) == 1
 			if complete {
 				must(ok && out.n == len(o.names), "walk-result", fmt.Sprintf("complete walk of %d names: session returned %d qids, err %v", len(o.names), out.n, out.err))
@@ -865,9 +868,23 @@ func (r *seqRun) finish() {
 
 // ---------------------------------------------------------------- generation
 
-var nameGood = []string{"a", "b", "c", "..", "xy"}
-var nameBad = []string{"", ".", "a/b", "a\\b", "/"}
-var modes = []uint8{0, 1, 2, 3, 0x10, 0x11, 0x12, 0x40, 0x41, 0x42, 0x13, 4, 7}
+var nameGood = []string{"a", "b", "c", "..", "xy", "..b", "...", "....", ".a", "a..", "x..y", "a.", ".b."}
+var nameBad = []string{"", ".", "a/b", "a\\b", "/", "../x", "..\\x", "/a", "a/", "\\a", "a\\", "./a", "../..", "\\"}
+
+// genMode: open/create modes over the whole byte, dense at the boundaries: every access kind
+// (low two bits) alone, with each single higher bit, with all higher bits; or any byte.
+func genMode(g *prng.R) uint8 {
+	low := uint8(g.Intn(4))
+	switch x := g.Intn(100); {
+	case x < 20:
+		return low
+	case x < 60:
+		return low | uint8(1)<<uint(g.Range(2, 7))
+	case x < 70:
+		return low | 0xFC
+	}
+	return uint8(g.Intn(256))
+}
 
 func genTok(g *prng.R, kind string, nnames int) tok {
 	t := tok{}
@@ -962,7 +979,7 @@ func (r *seqRun) genOp(g *prng.R) *opT {
 			n = g.Range(2, 4)
 		}
 		for i := 0; i < n; i++ {
-			if g.Chance(95, 100) {
+			if g.Chance(92, 100) {
 				nm := nameGood[g.Intn(len(nameGood))]
 				if nm == ".." && i > 0 && g.Chance(80, 100) {
 					nm = "a"
@@ -975,11 +992,11 @@ func (r *seqRun) genOp(g *prng.R) *opT {
 	case x < 48:
 		o.kind = "open"
 		o.fid = r.pickOpen(g, false, 75)
-		o.mode = modes[g.Intn(len(modes))]
+		o.mode = genMode(g)
 	case x < 58:
 		o.kind = "create"
 		o.fid = r.pickFid(g, true, 88)
-		o.mode = modes[g.Intn(len(modes))]
+		o.mode = genMode(g)
 		o.name = "n"
 		if g.Chance(6, 100) {
 			o.name = []string{".", "..", ""}[g.Intn(3)]
@@ -1074,6 +1091,42 @@ func corpus() [][]*opT {
 			mk("read", 1, 0, nil, "", 0), mk("write", 1, 0, nil, "", 0, e), mk("open", 2, 0, nil, "", 3), mk("read", 2, 0, nil, "", 0), mk("write", 2, 0, nil, "", 0),
 			mk("open", 3, 0, nil, "", 0x41), mk("write", 3, 0, nil, "", 0), mk("read", 3, 0, nil, "", 0), mk("stop", 0, 0, nil, "", 0), mk("attach", 3, NOFID, nil, "", 0, d), mk("stat", 3, 0, nil, "", 0)},
 	}
+}
+
+// grids: every special-form name (alone, after an ordinary name, after and before "..") in a
+// walk that the file system would complete, and every one of the 256 open modes on a created
+// file, an opened file and an opened directory, each followed by a read and a write.
+func grids() [][]*opT {
+	d, f := tk(0, true, 9), tk(0, false, 9)
+	var out [][]*opT
+	var lists [][]string
+	all := append(append([]string{}, nameGood...), nameBad...)
+	for _, x := range all {
+		lists = append(lists, []string{x}, []string{"a", x}, []string{"..", x}, []string{x, ".."}, []string{x, "b"})
+	}
+	for i := 0; i < len(lists); i += 18 {
+		seq := []*opT{mk("attach", 0, NOFID, nil, "", 0, d)}
+		j := i + 18
+		if j > len(lists) {
+			j = len(lists)
+		}
+		for _, l := range lists[i:j] {
+			seq = append(seq, mk("walk", 0, 1, l, "", 0, f), mk("clunk", 1, 0, nil, "", 0))
+		}
+		out = append(out, seq)
+	}
+	for base := 0; base < 256; base += 3 {
+		seq := []*opT{mk("attach", 0, NOFID, nil, "", 0, d)}
+		for m := base; m < base+3 && m < 256; m++ {
+			mode := uint8(m)
+			seq = append(seq,
+				mk("walk", 0, 1, nil, "", 0, d), mk("create", 1, 0, nil, "n", mode, f), mk("read", 1, 0, nil, "", 0), mk("write", 1, 0, nil, "", 0), mk("clunk", 1, 0, nil, "", 0),
+				mk("walk", 0, 2, []string{"a"}, "", 0, f), mk("open", 2, 0, nil, "", mode), mk("read", 2, 0, nil, "", 0), mk("write", 2, 0, nil, "", 0), mk("clunk", 2, 0, nil, "", 0),
+				mk("walk", 0, 3, nil, "", 0, d), mk("open", 3, 0, nil, "", mode), mk("read", 3, 0, nil, "", 0), mk("write", 3, 0, nil, "", 0), mk("clunk", 3, 0, nil, "", 0))
+		}
+		out = append(out, seq)
+	}
+	return out
 }
 
 func runFixed(ops []*opT) *seqRun {
@@ -1592,7 +1645,7 @@ func main() {
 		gens[i] = rng.Fork()
 	}
 	var pinned []*seqRun
-	for _, ops := range corpus() {
+	for _, ops := range append(corpus(), grids()...) {
 		pinned = append(pinned, runFixed(ops))
 	}
 	ninfl := r.N(300, 4000)
